@@ -195,7 +195,13 @@ def passingH : Handler := fun inp impl => do
 
 /-! ### c01.join -/
 
+/-- a record without an observation (`{"harness_error": …}` after the harness's own retries, a captured panic of the
+harness, `{"hang": …}`): not judged — neither a disagreement nor a specification failure, never non-trivial -/
+def noObservation : Json :=
+  ({ model := Json.str "no-observation", agree := true, spec := true, nontrivial := false, tag := "harness-error" } : Verdict).toJson
+
 def joinH : Handler := fun inp impl => do
+  if (impl.getObjVal? "lines").toOption.isNone then return noObservation
   let pfx := getStrD (field inp "cfg") "prefix"
   let passing ← arrOf checkOf (field inp "passing")
   let cat ← arrOf instOf (field impl "catalog")
